@@ -5,6 +5,8 @@ mod fam_codec;
 mod fam_dist;
 mod fam_gen;
 mod fam_len;
+#[cfg(feature = "serde")]
+mod fam_serde;
 mod fam_stream;
 mod json;
 mod rng;
@@ -71,6 +73,8 @@ fn main() {
         "c12" => fam_stream::run_c12(&mut out, &mut rng, args.thorough, only, !args.extra.iter().any(|x| x == "--no-interrupts")),
         #[cfg(all(feature = "easy", feature = "std"))]
         "misreport" => fam_stream::run_misreport(&mut out, &mut rng, only),
+        #[cfg(feature = "serde")]
+        "c16" => fam_serde::run_c16(&mut out, &mut rng, args.thorough, only),
         "len_sweep" => fam_len::sweep(&mut out, 16),
         "len_codes" => fam_len::codes(&mut out),
         _ => usage(),
